@@ -577,3 +577,82 @@ def scalar_value_check(impl, optext, dtype, s, xlist):
             return ('gradient', {'dtype': dtype, 'values': [repr(float(v)) for v in np.ravel(gref)]},
                     None if g is None else {'dtype': str(g.dtype), 'values': [repr(float(v)) for v in np.ravel(g)]})
     return None
+
+
+# ------------------------------------------------------------------------------------------------ stateful layers: histories
+def history_cases():
+    """BatchNorm1d/2d x momentum {0.1, None} x track_running_stats x affine x layer dtype {default, float32, float64}
+    x k in {0,1,2,3} training forwards followed by an eval forward; inputs have the layer's dtype"""
+    out = []
+    for cls, shape in (('BatchNorm1d', (6, 3)), ('BatchNorm1d', (4, 3, 5)), ('BatchNorm2d', (4, 3, 2, 2))):
+        for momentum in (0.1, None):
+            for track in (True, False):
+                for affine in (True, False):
+                    for layer_dtype in (None, 'float32', 'float64'):
+                        for k in (0, 1, 2, 3):
+                            if shape == (4, 3, 5) and (k not in (0, 2) or layer_dtype is None):
+                                continue
+                            out.append({'cls': cls, 'shape': list(shape), 'momentum': momentum, 'track_running_stats': track, 'affine': affine,
+                                        'layer_dtype': layer_dtype, 'dtype': layer_dtype or 'float32', 'k': k})
+    return out
+
+
+def run_history(impl, smeta, h, seed):
+    """runs one history on the real layer; returns {'ctor': abstract ctor args, 'init_state', 'steps': [...], 'problems': [...]}"""
+    import numbers
+    np, sg, nn = impl.np, impl.synapgrad, impl.nn
+    Tn = sg.Tensor
+    impl.reset_modes()
+    rs = np.random.RandomState(seed % (2 ** 31))
+    cls = getattr(nn, h['cls'])
+    kw = {'num_features': h['shape'][1], 'momentum': h['momentum'], 'track_running_stats': h['track_running_stats'], 'affine': h['affine']}
+    if h['layer_dtype'] is not None:
+        kw['dtype'] = getattr(np, h['layer_dtype'])
+    layer_dt = h['layer_dtype'] or 'float32'
+    dt = h['dtype']
+    obj = cls(**kw)
+    meta = [m for m in (smeta or []) if m['class'] == h['cls']]
+    rec = {'steps': [], 'problems': []}
+
+    def state():
+        if not meta:
+            return None
+        return ('TupV', [alpha(np, getattr(obj, a), Tn) for a in meta[0]['attrs']])
+    if meta:
+        rec['ctor'] = bound_alpha(impl, cls.__init__, meta[0]['cparams'], [obj], kw)
+        rec['init_state'] = state()
+
+    def buffers(where):
+        for nm in ('running_mean', 'running_var'):
+            b = getattr(obj, nm, None)
+            if b is not None and str(b.dtype) != layer_dt:
+                rec['problems'].append(('%s: %s is %s' % (where, nm, b.dtype), layer_dt, str(b.dtype)))
+        n = getattr(obj, 'num_batches_tracked', None)
+        if n is not None and (isinstance(n, bool) or not isinstance(n, numbers.Integral)):
+            rec['problems'].append(('%s: num_batches_tracked is a %s' % (where, type(n).__name__), 'an integer', repr(n)))
+    buffers('after construction')
+    plan = [True] * h['k'] + [False]
+    for i, tr in enumerate(plan):
+        where = 'forward %d (%s)' % (i + 1, 'train' if tr else 'eval')
+        obj.train() if tr else obj.eval()
+        x = Tn(rs.randn(*h['shape']).astype(dt), requires_grad=True)
+        out = obj(x)
+        red = out.mean() if not tr else out.sum()
+        if str(out.dtype) != dt:
+            rec['problems'].append(('%s: output dtype' % where, dt, str(out.dtype)))
+        if tuple(out.shape) != tuple(h['shape']):
+            rec['problems'].append(('%s: output shape' % where, list(h['shape']), list(out.shape)))
+        if str(red.dtype) != dt or tuple(red.shape) != ():
+            rec['problems'].append(('%s: 0-d reduction of the output' % where, [dt, []], [str(red.dtype), list(red.shape)]))
+        red.backward()
+        for nm, t in (('x', x), ('weight', getattr(obj, 'weight', None)), ('bias', getattr(obj, 'bias', None))):
+            if t is None or not t.requires_grad:
+                continue
+            g = t._grad
+            if g is None or str(g.dtype) != str(t.dtype) or tuple(g.shape) != tuple(t.shape):
+                rec['problems'].append(('%s: grad of %s' % (where, nm), [str(t.dtype), list(t.shape)], None if g is None else [str(g.dtype), list(g.shape)]))
+        buffers('after ' + where)
+        rec['steps'].append({'training': tr, 'x': alpha(np, x, Tn), 'out': alpha(np, out, Tn), 'state': state(), 'out_dtype': str(out.dtype),
+                             'stats': [str(getattr(obj, nm).dtype) for nm in ('running_mean', 'running_var') if getattr(obj, nm, None) is not None]})
+    impl.reset_modes()
+    return rec
